@@ -69,6 +69,8 @@ REV=[
  ("an enum option whose short name begins with the enum prefix decoded to another option",["C03", "C01"],"R-CONST/leniency"),
  ("text of a FLOAT32 field was parsed as float64 and narrowed",["C03", "C01"],"R-FLOW/F2f"),
  ("date text naming a date that does not exist was accepted",["C03"],"R-ERR/E4d"),
+ ("a google.protobuf.Any holding a message with every field at its default could not be encoded",["C01"],"R-FLOW/anycontent"),
+ ("objects of service and topic blocks were exported as types of the parent package",["C14", "C13", "C07"],"R-PROV/exportscope"),
 ]
 n=0
 for sub,props,expect in REV:
